@@ -93,6 +93,40 @@ for n_, v_ in SAME_AS_DEFAULT.items():
         if other != n_ and src.get(other) != "default":
             failures.append({"class": "parameter-source-wrong:default", "parameter": other, "got": src.get(other)})
 
+# ---- timestamps denote UTC whatever the host zone: one traced run in a fresh interpreter per zone ----------------------------------
+import os, subprocess
+if os.environ.get("C07_TZ_CHILD"):
+    import time as _time
+    from datetime import datetime, timezone
+    out = Path(os.environ["C07_TZ_CHILD"])
+    Pipeline([{"processor": FloatValueDataSourceWithDefault}, {"processor": FloatMultiplyOperation, "parameters": {"factor": 2.0}}],
+             trace=JsonlTraceDriver(str(out), detail="hash")).process(Payload(NoDataType(), ContextType({})))
+    now = datetime.now(timezone.utc)
+    bad = []
+    for l in out.read_text().splitlines():
+        r = json.loads(l)
+        stamps = [("timestamp", r.get("timestamp"))] + [(k, (r.get("timing") or {}).get(k)) for k in ("started_at", "finished_at")]
+        for k, v in stamps:
+            if isinstance(v, str) and v.endswith("Z"):
+                t = datetime.fromisoformat(v[:-1]).replace(tzinfo=timezone.utc)
+                if abs((now - t).total_seconds()) > 300:
+                    bad.append([r.get("record_type"), k, v])
+        tm = r.get("timing") or {}
+        if tm.get("started_at") and tm.get("finished_at") and tm["started_at"] > tm["finished_at"]:
+            bad.append([r.get("record_type"), "started_at>finished_at", tm["started_at"], tm["finished_at"]])
+    print("TZCHILD" + json.dumps(bad))
+    sys.exit(0)
+for zone in ("Asia/Tokyo", "America/Los_Angeles", "Asia/Kathmandu"):
+    evaluations += 1
+    distinct.add(("timestamps-under-zone", zone))
+    env = dict(os.environ, TZ=zone, C07_TZ_CHILD=str(tmp / f"tz_{zone.replace('/', '_')}.jsonl"))
+    p = subprocess.run([sys.executable, os.path.abspath(__file__)], input="{}", capture_output=True, text=True, env=env)
+    line = next((l for l in p.stdout.splitlines() if l.startswith("TZCHILD")), None)
+    if line is None:
+        failures.append({"class": "timestamp-zone-case-crashed", "zone": zone, "stderr": p.stderr[-300:]})
+    elif json.loads(line[7:]):
+        failures.append({"class": "timestamp-does-not-denote-the-UTC-instant", "zone": zone, "examples": json.loads(line[7:])[:3]})
+
 # ---- digests are functions of content: equal contexts (same mapping content at every depth, other insertion order) give the
 #      same canonical bytes, and a key rewritten with equal content is not reported as updated ---------------------------------
 from semantiva.trace._utils import canonical_json_bytes
